@@ -152,6 +152,7 @@ theorem runActionR_eq (bs : Bytes) (a : Action) : runActionR bs a = .ok (runActi
   | mzpe =>
     simp only [runActionR, runAction, mzProbeR_eq]
     cases mzProbe bs <;> rfl
+  | mzpeOrig => rfl
 
 theorem detectWithR_eq (rs : List Rule) (bs : Bytes) : detectWithR rs bs = .ok (detectWith rs bs) := by
   induction rs with
